@@ -25,7 +25,7 @@ func init() {
 		RequiredCounters: []string{"single_maps_checked", "batch_positions_checked", "rerepresentations_checked"},
 		Assumptions:      []string{"shadows are re-synchronised from the library's raw coordinates when an operation deviates from the reference (C08's subject)"},
 		Plan: func(tier string) []Child {
-			out := shardsVar(pick(tier, 10, 14), Child{Flavour: "plain", NCPU: 1})
+			out := plus386(shardsVar(pick(tier, 10, 14), Child{Flavour: "plain", NCPU: 1}), 0)
 			// large batches on several CPUs: a batch helper that parallelises internally must still agree with the single variant
 			out = append(out, Child{Flavour: "plain", NCPU: 4, Params: map[string]string{"part": "bigbatch"}})
 			out = append(out, Child{Flavour: "plain", NCPU: 8, GOMAXPROCS: 16, Params: map[string]string{"part": "bigbatch"}})
@@ -39,6 +39,10 @@ func init() {
 }
 
 func c11single(c *mon.Ctx, g *engine, d int, op string, rng *rand.Rand) {
+	if rng.Intn(16) == 0 {
+		fieldEdgeCalls(nil, rng) // unrelated legal calls into the field packages (wide reductions, zeros, ...) as history
+		c.Count("field_edge_calls_in_history", 1)
+	}
 	p := g.e[d]
 	var got fr.Element
 	got.SetUint64(12345)
